@@ -192,6 +192,130 @@ func H_C07_send_vs_overwrite() {
 	verifReach("C07.overwrite-vs-send.end")
 }
 
+// C07 under concurrency: two registrations of the same id with arbitrary policies, from a state where the id is free,
+// registered overwritable or registered DenyOverwrite. Once both have returned, their results and the registry are
+// those of one of the two sequential orders; in particular a DenyOverwrite registration that reported success is
+// never replaced and stays sticky.
+type polRun struct {
+	b        *Broker
+	ctx      context.Context
+	s0, sA, sB *cNode
+	eA, eB   error
+}
+
+func polPolicy(k int) RegistrationPolicy {
+	if k == 1 {
+		return DenyOverwrite
+	}
+	return AllowOverwrite
+}
+
+func newPolRun(pre int, node bool) *polRun {
+	r := &polRun{ctx: &vCtx{}}
+	b, _ := NewBroker()
+	r.b = b
+	r.s0, r.sA, r.sB = &cNode{typ: NodeTypeSink}, &cNode{typ: NodeTypeSink}, &cNode{typ: NodeTypeSink}
+	b.RegisterNode("f", &cNode{typ: NodeTypeFormatter})
+	b.RegisterNode("s0", r.s0)
+	b.RegisterNode("sA", r.sA)
+	b.RegisterNode("sB", r.sB)
+	if node {
+		if pre > 0 {
+			b.RegisterNode("n", r.s0, WithNodeRegistrationPolicy(polPolicy(pre-1)))
+		}
+		return r
+	}
+	if pre > 0 {
+		b.RegisterPipeline(Pipeline{PipelineID: "p", EventType: "t", NodeIDs: []NodeID{"f", "s0"}}, WithPipelineRegistrationPolicy(polPolicy(pre-1)))
+	}
+	return r
+}
+
+func (r *polRun) reg(node bool, which int, pol int) error {
+	if node {
+		n := r.sA
+		if which == 1 {
+			n = r.sB
+		}
+		return r.b.RegisterNode("n", n, WithNodeRegistrationPolicy(polPolicy(pol)))
+	}
+	sink := NodeID("sA")
+	if which == 1 {
+		sink = "sB"
+	}
+	return r.b.RegisterPipeline(Pipeline{PipelineID: "p", EventType: "t", NodeIDs: []NodeID{"f", sink}}, WithPipelineRegistrationPolicy(polPolicy(pol)))
+}
+
+// live: which version is the registered one (0 none, 1 pre-state, 2 A, 3 B) and whether the id still accepts a registration
+func (r *polRun) live(node bool) (int, bool) {
+	who := 0
+	if node {
+		if nu, ok := r.b.nodes["n"]; ok {
+			switch nu.node {
+			case Node(r.s0):
+				who = 1
+			case Node(r.sA):
+				who = 2
+			case Node(r.sB):
+				who = 3
+			}
+		}
+		return who, r.b.RegisterNode("n", r.s0) == nil
+	}
+	r.b.Send(r.ctx, "t", "payload")
+	if r.s0.procs > 0 {
+		who = 1
+	}
+	if r.sA.procs > 0 {
+		who = 2
+	}
+	if r.sB.procs > 0 {
+		who = 3
+	}
+	verifAssert(r.s0.procs+r.sA.procs+r.sB.procs <= 1, "C07.policies.one-version-live")
+	return who, r.b.RegisterPipeline(Pipeline{PipelineID: "p", EventType: "t", NodeIDs: []NodeID{"f", "s0"}}) == nil
+}
+
+func H_C07_policies_interleaved() {
+	node := nondetBool()
+	pre := symLen(0, 2)
+	pa, pb := symLen(0, 1), symLen(0, 1)
+	verifNoteInt("pre", pre)
+	verifNoteInt("polA", pa)
+	verifNoteInt("polB", pb)
+	r := newPolRun(pre, node)
+	verifInterleave(true)
+	verifGo(func() { r.eA = r.reg(node, 0, pa) })
+	verifGo(func() { r.eB = r.reg(node, 1, pb) })
+	verifJoin()
+	verifInterleave(false)
+	who, open := r.live(node)
+	// the direct statement of the property
+	if pre == 2 {
+		verifAssert(r.eA != nil && r.eB != nil, "C07.policies.deny-is-sticky")
+		verifAssert(who == 1, "C07.policies.original-keeps-working")
+	}
+	if pa == 1 && r.eA == nil && pb == 1 && r.eB == nil {
+		verifAssert(false, "C07.policies.two-deny-registrations-both-succeeded")
+	}
+	if (pa == 1 && r.eA == nil) || (pb == 1 && r.eB == nil) || pre == 2 {
+		verifAssert(!open, "C07.policies.deny-registration-still-protected")
+	}
+	// and the linearizability form: some sequential order explains everything observed
+	r1 := newPolRun(pre, node)
+	e1a := r1.reg(node, 0, pa)
+	e1b := r1.reg(node, 1, pb)
+	w1, o1 := r1.live(node)
+	r2 := newPolRun(pre, node)
+	e2b := r2.reg(node, 1, pb)
+	e2a := r2.reg(node, 0, pa)
+	w2, o2 := r2.live(node)
+	ab := (r.eA == nil) == (e1a == nil) && (r.eB == nil) == (e1b == nil) && who == w1 && open == o1
+	ba := (r.eA == nil) == (e2a == nil) && (r.eB == nil) == (e2b == nil) && who == w2 && open == o2
+	verifAssert(ab || ba, "C07.policies.equivalent-to-a-sequential-order")
+	verifReach("C07.policies.end")
+}
+
 func H_C04_send_vs_registration() {
 	r := &iState{ctx: &vCtx{}}
 	b, _ := NewBroker()
